@@ -87,8 +87,9 @@ def vc_move():
     con = _contract("HybridClass.move")
     for movable in (True, False):
         for force in (False,):  # `_force_moveable` is an internal override the statement does not speak about: not pinned
-            for has_refs in (False, True):
-                lab = f"{'top' if movable else 'nested'}:{'refs' if has_refs else 'ref_free'}{':forced' if force else ''}"
+          for has_refs in (False, True):
+            for target in ("other_buffer", "own_buffer", "no_buffer"):
+                lab = f"{'top' if movable else 'nested'}:{'refs' if has_refs else 'ref_free'}{':forced' if force else ''}:to_{target}"
                 it = _env()
                 its.append(it)
                 h, x, X, H, own_ctx = _model(it, movable, force, has_refs)
@@ -100,9 +101,14 @@ def vc_move():
                         me.attrs["_xobject"] = k.get("_xobject", a[0] if a else None)
                     yield st, None
                 it.overrides[(HYB, "HybridClass._reinit_from_xobject")] = ov_reinit
-                tgt_buf = SymObj("XBuffer", {"context": SymObj("ContextCpu", {})})
-                tgt_buf.closed = True
-                off = fresh_int("target_offset")
+                if target == "own_buffer":
+                    tgt_buf = x.attrs["_buffer"]
+                elif target == "other_buffer":
+                    tgt_buf = SymObj("XBuffer", {"context": SymObj("ContextCpu", {})})
+                    tgt_buf.closed = True
+                else:
+                    tgt_buf = None
+                off = fresh_int("target_offset") if tgt_buf is not None else None
                 try:
                     for st, out in it.exec_function(con, {"self": h, "_context": None, "_buffer": tgt_buf, "_offset": off}):
                         ob = lambda c, g: it.oblige(st, "post", f"{c}[{lab}]", g if not isinstance(g, bool) else z3.BoolVal(g))
@@ -122,7 +128,7 @@ def vc_move():
                         if ok:
                             c = cons[0]
                             ob("copied_from_the_old_xobject", len(c[2]) == 1 and getattr(c[2][0], "uid", None) == x.uid)
-                            ob("into_the_requested_buffer", getattr(c[3].get("_buffer"), "uid", None) == tgt_buf.uid)
+                            ob("into_the_requested_buffer", getattr(c[3].get("_buffer"), "uid", None) == getattr(tgt_buf, "uid", None) and (tgt_buf is not None or c[3].get("_buffer") is None))
                             ob("at_the_requested_offset", same_value(c[3].get("_offset"), off))
                             ob("new_xobject_installed", getattr(me.attrs.get("_xobject"), "uid", None) == c[4])
                             re_ = [e for e in ev if e[0] == "reinit"]
